@@ -568,6 +568,31 @@ func runC16LoadStrict(c *Ctx) {
 		})
 		return hit
 	}
+	guardFlags := map[types.Object]bool{}
+	ast.Inspect(ld.Body(), func(n ast.Node) bool {
+		ds, ok := n.(*ast.DeferStmt)
+		if !ok {
+			return true
+		}
+		fl, ok := ds.Call.Fun.(*ast.FuncLit)
+		if !ok {
+			return true
+		}
+		for _, s := range fl.Body.List {
+			ifs, ok := s.(*ast.IfStmt)
+			if !ok || ifs.Init != nil || !resets(ifs.Body) {
+				continue
+			}
+			if u, ok := unparen(ifs.Cond).(*ast.UnaryExpr); ok && u.Op == token.NOT {
+				if id, ok := unparen(u.X).(*ast.Ident); ok {
+					if v, ok := info.Uses[id].(*types.Var); ok && !v.IsField() {
+						guardFlags[v] = true
+					}
+				}
+			}
+		}
+		return true
+	})
 	again := token.NoPos
 	pos, found := ff.PathSearchPSX(decStmt, 1, func(n ast.Node, st *State, flag int) (int, bool) {
 		if flag == 1 {
@@ -588,7 +613,18 @@ func runC16LoadStrict(c *Ctx) {
 			return flag, true // the next iteration starts afresh
 		}
 		return flag, false
-	}, nil, func(flag int, _ *State) bool { return flag == 1 })
+	}, nil, func(flag int, st *State) bool {
+		if flag != 1 {
+			return false
+		}
+		// a deferred `if !valid { state.reset() }` resets on every exit that leaves valid false
+		for v := range guardFlags {
+			if st != nil && st.HasFact(mkFact(false, "true", TVar(v), nil)) {
+				return false
+			}
+		}
+		return true
+	})
 	_ = info
 	if again.IsValid() {
 		found, pos = true, again
